@@ -47,6 +47,18 @@ CLAIMED = {
     'C10': _key('C10.*: calls binding unequal values (or, typed, differently typed values) to a non-ignored parameter never share a key under an information-preserving keymap; a hit returns the own result.'),
     'C11': _key('C11.*: calls differing only in ignored arguments (name, index, *, **) share a key and are not re-evaluated; everything else still discriminates.'),
     'C17': _key('C17.*: keys computed in three interpreter sessions (PYTHONHASHSEED 0, 1, random) are byte-identical; a writer session archives to file/dir/sqlite and reader sessions with other seeds find every call as a load.'),
+    'C13': ('fs', 'fault_enumeration',
+            'C13.*: after a kill at any file-system call of an operation a fresh process reads the archive without error, sees every '
+            'untouched key unchanged, every touched key with its previous or its new value, and no key that was never stored. Layer I '
+            '(DirFS, FileFS: one action per file-system call + Kill) is model-checked by TLC against the C13 clauses of FsP for every '
+            'scenario, idealised (must hold) and with the deviations that describe the code as it is; every scenario is run on a real '
+            'process whose system calls are recorded with strace, then killed on entry to each of its calls in turn (strace inject '
+            'SIGKILL) and at synthesized partial writes; a fresh process reports its view and TLC judges every (contents, operation, '
+            'view) triple (FsTrace). sqlite is enumerated at system-call granularity as well (its atomic commit is tested, not assumed).',
+            '4 (C13)',
+            'trusted: TLC, strace (kill on syscall entry), harness/fs_worker.py; process kill, not power loss; two keys; nine scenarios; '
+            'HDF5/sqlalchemy backends absent',
+            'TLA+ layer I with Kill model-checked by TLC + exhaustive kill-point enumeration on real processes (strace injection) + trace validation'),
     'C15': _cache('Clauses C15.*: exactly one of hit/load/miss is incremented according to the pre-state class; size/maxsize; clear semantics.', '4 (C15)'),
     'C16': _cache('Clauses C16.*: a raising call leaves every observable unchanged and re-raises the same object after one evaluation; '
                   'safe decorators fall back to plain evaluation for unkeyable arguments.', '4 (C16)'),
